@@ -97,9 +97,17 @@ func (c *Client) runRaw() {
 				rc := s.(rawConn)
 				c.rawConns = append(c.rawConns, rc)
 				n := len(c.rawConns)
+				closeFrames := 0
 				c.spawn("rawrd", func() {
 					for {
 						p, err := rc.recvPacket()
+						if err != nil && strings.HasPrefix(err.Error(), "close frame") && closeFrames < 3 {
+							// a close frame is a request to end the connection, not its end: a peer that ignores it keeps
+							// the connection for as long as the server does not hang up
+							closeFrames++
+							c.rec("c-raw-close-frame", err.Error(), int64(n))
+							continue
+						}
 						if err != nil {
 							c.rec("c-raw-stream-end", err.Error(), int64(n))
 							return
